@@ -164,7 +164,7 @@ class Pool:
         hashseeds = hashseeds or list(range(n))
         self.workers = [Worker(i, hashseeds[i % len(hashseeds)], self.logdir) for i in range(n)]
 
-    def map(self, jobs, timeout=120, progress=None, deadline=None):
+    def map(self, jobs, timeout=120, progress=None, deadline=None, min_done=0):
         """Run jobs (list of dicts) -> list of results in job order.  Jobs not started before the
         batch deadline are returned with status 'skipped' (budget), never counted as passed."""
         results = [None] * len(jobs)
@@ -197,7 +197,7 @@ class Pool:
                         job = free_q.get_nowait()
                     except queue.Empty:
                         return
-                if deadline is not None and Worker.t_first_ready is not None and time.monotonic() > Worker.t_first_ready + deadline:
+                if deadline is not None and Worker.t_first_ready is not None and time.monotonic() > Worker.t_first_ready + deadline and done[0] >= min_done:
                     res = {"id": job["id"], "status": "skipped"}
                 else:
                     try:
@@ -438,7 +438,7 @@ def run_check(prop, tier, seed, workers, replay=None, budget=None, extra=None):
                 last[0] = now
                 print("[%s %s] %d/%d sessions  %.0fs" % (prop, tier, d, n, now - t_start), flush=True)
 
-        results = pool.map(jobs, timeout=timeout, progress=progress, deadline=deadline)
+        results = pool.map(jobs, timeout=timeout, progress=progress, deadline=deadline, min_done=plan.get("min_executed", 1) + 5)
 
         # retry harness timeouts/errors once in a fresh interpreter (load spikes), then classify
         harness_errors = []
